@@ -17,6 +17,7 @@
 #include <cstdlib>
 #include <exception>
 #include <iostream>
+#include <locale>
 #include <map>
 #include <new>
 #include <sstream>
@@ -440,6 +441,7 @@ int main(int argc, char** argv) {
       g_opidx = start;
       for (int s = 0; s < vrt::kStreamSlots; ++s) reset_slot(s, -1, 0, 0, 0);
       std::fesetround(FE_TONEAREST);
+      std::locale::global(std::locale::classic());
     } else if (cmd == "CFG") {
       int slot = 0, mode = 0, state = 0;
       long budget = -1;
@@ -501,7 +503,19 @@ int main(int argc, char** argv) {
       is >> m;
       static const int modes[] = {FE_TONEAREST, FE_UPWARD, FE_DOWNWARD, FE_TOWARDZERO};
       say("B %ld %ld MODE\n", g_run, g_opidx);
-      std::fesetround(modes[((m % 4) + 4) % 4]);
+      if (m >= 0 && m < 4) {
+        std::fesetround(modes[m]);
+      } else if (m == 4) {
+        // the caller's C++ global locale: digit grouping, a comma as decimal point (streams created from now on use it)
+        struct Punct : std::numpunct<char> {
+          char do_decimal_point() const override { return ','; }
+          char do_thousands_sep() const override { return '.'; }
+          std::string do_grouping() const override { return "\3"; }
+          std::string do_truename() const override { return "wahr"; }
+          std::string do_falsename() const override { return "falsch"; }
+        };
+        std::locale::global(std::locale(std::locale::classic(), new Punct));
+      }
       say("R %ld %ld ok n=0 fired=0 h0=0 len=0 nf=0\n", g_run, g_opidx);
       ++g_opidx;
     } else if (cmd == "REP") {
